@@ -19,6 +19,9 @@ Definition expected_layout (c : cursor) : N :=
   if eqb_list (rid (chead c)) (rid (cblk c)) then 1
   else if eqb_list (rid (cblk c)) (rid (clib c)) then 2 else 3.
 
+(* W1: boolean form of the fourth conjunct of Spec.C14_layout (segment count of the chosen layout) *)
+Definition expected_segments (c : cursor) : nat := if expected_layout c =? 3 then 8%nat else 6%nat.
+
 Definition reenc_ok (dec re : option cursor) : bool :=
   match dec with
   | None => true
@@ -33,7 +36,8 @@ Definition c14_verdict (k : c14_case) : N :=
                (negb (cursor_ok c) || ocur_eqb o_dec (from_string (cursor_string c))) in
       let p := negb (cursor_ok c && alias_ok c) ||
                (ocur_eqb o_dec (Some c) && ocur_eqb o_opq (Some c) &&
-                (layout_of o_str =? expected_layout c)) in
+                (layout_of o_str =? expected_layout c) &&
+                Nat.eqb (length (split colon o_str)) (expected_segments c)) in
       (if m then 0 else 1) + (if p then 0 else 2)
   | CStr s o_dec o_re panic =>
       if panic then 4 else
